@@ -157,3 +157,26 @@ SQL_TEMPLATE_CAVEATS = {
                                       "PostgreSQL rounds to nearest when casting a float to an integer type (CAST(2.7 AS BIGINT) = 3, documentation 8.1 / "
                                       "numeric-to-integer casts round); the catalogued meaning, numpy astype(int64), truncates (2): wrap the argument in TRUNC()"),
 }
+
+
+# ---------------------------------------------------------------------------------------------------------------------
+# What a step does with the row order it receives (C06, order_rows elimination).  Confirmed by reading the Pandas step
+# implementations and by running order_rows(['x']) -> <step> -> order_rows([], limit=2) chained against step-at-a-time
+# (probe of 2026-09-22: every "keeps"/"reads" row differed; convert_records did not).
+#   replaces: the step's result (rows and their order) does not depend on the incoming row order
+#   keeps:    rows come out in the order they came in, so a later bare limit / the final result still shows the ordering
+#   reads:    the step's *values* can depend on the incoming row order
+ORDER_ROLE_OF_BUILDERS = {
+    "order_rows": ("replaces", "with order columns of its own (the columns-empty case is guarded, C06-S5)"),
+    "convert_records": ("replaces", "both record transforms sort their result by the record keys"),
+    "extend_parsed_": ("keeps", "row-wise and windowed extends write columns on the incoming frame"),
+    "select_rows_parsed_": ("keeps", "filtering keeps the relative order of the surviving rows"),
+    "select_rows": ("keeps", "parses and calls select_rows_parsed_"),
+    "drop_columns": ("keeps", "column subset"),
+    "select_columns": ("keeps", "column subset"),
+    "map_columns": ("keeps", "column renaming / deletion"),
+    "rename_columns": ("keeps", "column renaming"),
+    "natural_join": ("keeps", "left/inner/full merge keeps the left operand's row order"),
+    "concat_rows": ("keeps", "rows of a then rows of b"),
+    "project_parsed_": ("reads", "first()/last() pick by position within the group"),
+}
